@@ -144,8 +144,8 @@ class G:
         if not fs:
             return [S("+"), self.int_(d - 1, env), 1]
         name, t = r.choice(fs)
-        n = t.fixed + (r.randint(0, 3) if t.rest else 0)
-        args = [self.tick(self.int_(d - 1, env)) for _ in range(n)]
+        n = t.fixed + ((r.randint(0, 3) if r.random() > 0.05 else r.choice([12, 40])) if t.rest else 0)
+        args = [self.tick(self.int_(d - 1 if n < 8 else 0, env)) for _ in range(n)]
         return self.mkcall(S(name), args)
 
     def mkcall(self, f, args):
@@ -176,7 +176,7 @@ class G:
             else:
                 body = [S("if"), [S("<="), S(n), 0], S(acc), [S("+"), step, Call(S(name), [[S("-"), S(n), 1], S(acc)])]]
             return name, FnT(2, False, "rec"), Proc(name, [n, acc], None, [], [body])
-        k = r.randint(0, 5)
+        k = r.randint(0, 5) if r.random() > 0.03 else r.choice([9, 16, 24])        # now and then a long parameter list
         ps = [self.fresh("p") for _ in range(k)]
         rest = self.fresh("r") if r.random() < 0.4 else None
         env2 = env + [(p, "int") for p in ps] + ([(rest, "lint")] if rest else [])
